@@ -102,6 +102,11 @@ func Apply(n *vnode.Node, o Op) (out string) {
 			}
 		}
 		return fmt.Sprintf("m%d/b%d", nm, nb)
+	case "Mo": // momentum only (no contract auto-receives afterwards), skipping o.V slots first
+		if err := n.ProduceMomentumOnly(int(o.V)); err != nil {
+			return "err:" + short(err)
+		}
+		return "ok"
 	case "T": // transfer: A -> B, token T, amount V
 		b, err := n.Send(Users[o.A].Address, Users[o.B].Address, Tokens[o.T], Big(o.V), nil)
 		return res(b, err)
